@@ -1118,3 +1118,142 @@ Proof.
   intros cps i. unfold cp_get. cbv zeta. rewrite resolve_index_spec by lia.
   destruct ((- Z.of_nat (length cps) <=? i) && (i <? Z.of_nat (length cps))); reflexivity.
 Qed.
+
+(* ---------------------------------------------------------------- byte_slices that are never sliced own their arrays *)
+
+(* every object covers the whole of an array of its own *)
+Definition bown (st : bstate) : Prop :=
+  length (b_heap st) = length (b_objs st) /\
+  forall r o, nth_error (b_objs st) r = Some o ->
+    b_arr o = r /\ b_off o = O /\ b_len o = length (nth r (b_heap st) []).
+
+Lemma bown_view : forall st r o, bown st -> nth_error (b_objs st) r = Some o -> b_view st o = nth r (b_heap st) [].
+Proof.
+  intros st r o [L H] En. destruct (H r o En) as (A & B & C). unfold b_view. rewrite A, B, C. simpl. apply firstn_all.
+Qed.
+
+Lemma babs_bown : forall st, bown st -> babs st = b_heap st.
+Proof.
+  intros st W. apply nth_ext with (d := []) (d' := []).
+  - unfold babs. rewrite map_length. destruct W as [L _]. lia.
+  - intros n Hn. unfold babs in *. rewrite map_length in Hn.
+    destruct (nth_error (b_objs st) n) as [o|] eqn:En; [|apply nth_error_None in En; lia].
+    rewrite (nth_indep _ [] (b_view st (BO 0 0 0))) by (rewrite map_length; lia).
+    rewrite map_nth. erewrite nth_error_nth by exact En. apply (bown_view st n o W En).
+Qed.
+
+Lemma bown_alloc : forall st l, bown st -> bown (fst (b_alloc st l)).
+Proof.
+  intros [heap objs] l [L H]. unfold b_alloc, bown. cbn [fst b_heap b_objs] in *. split.
+  - rewrite !app_length. simpl. lia.
+  - intros r o En. destruct (Nat.lt_ge_cases r (length objs)) as [Hr|Hr].
+    + rewrite nth_error_app1 in En by assumption. destruct (H r o En) as (A & B & C).
+      rewrite app_nth1 by lia. auto.
+    + rewrite nth_error_app2 in En by assumption.
+      destruct (r - length objs)%nat as [|k] eqn:Ek; simpl in En; [|destruct k; discriminate].
+      inversion En; subst. cbn [b_arr b_off b_len]. assert (r = length heap) by lia. subst r.
+      rewrite app_nth2 by lia. rewrite Nat.sub_diag. simpl. auto.
+Qed.
+
+Lemma nth_set_nth_obj : forall (A : Type) (s : list A) r x d, (r < length s)%nat -> nth r (set_nth_obj s r x) d = x.
+Proof. induction s as [|y s IH]; intros [|r] x d H; simpl in *; try lia; auto. apply IH. lia. Qed.
+
+Lemma nth_set_nth_obj_other : forall (A : Type) (s : list A) r r' x d, r <> r' -> nth r' (set_nth_obj s r x) d = nth r' s d.
+Proof. induction s as [|y s IH]; intros [|r] [|r'] x d H; simpl; auto; try congruence. Qed.
+
+Lemma set_nth_obj_length : forall (A : Type) (s : list A) r x, length (set_nth_obj s r x) = length s.
+Proof. induction s as [|y s IH]; intros [|r] x; simpl; auto. Qed.
+
+Lemma zwrite_length : forall arr i x, (i < length arr)%nat -> length (zwrite arr i x) = length arr.
+Proof. intros. unfold zwrite. rewrite app_length, firstn_length. cbn [length]. rewrite skipn_length. lia. Qed.
+
+Lemma bstep_own_sim : forall st o, bown st -> is_bslice o = false ->
+  rbstep (babs st) o = (babs (fst (bstep st o)), snd (bstep st o)) /\ bown (fst (bstep st o)).
+Proof.
+  intros st o W H. pose proof (babs_bown st W) as Eb. destruct o; try discriminate; unfold rbstep, bstep.
+  - pose proof (bown_alloc st l W) as W'. rewrite (babs_bown _ W'). rewrite Eb.
+    split; [|exact W']. unfold b_alloc. cbn [fst snd b_heap b_objs]. destruct W as [L _]. rewrite L. reflexivity.
+  - rewrite Eb. destruct (nth_error (b_objs st) r) as [bo|] eqn:En.
+    + destruct W as [L Hw]. destruct (Hw r bo En) as (A & B & C).
+      assert (Hr : (r < length (b_heap st))%nat) by (rewrite L; apply nth_error_Some; congruence).
+      destruct (nth_error (b_heap st) r) as [arr|] eqn:Eh; [|apply nth_error_None in Eh; lia].
+      assert (Ea : nth r (b_heap st) [] = arr) by (apply nth_error_nth; exact Eh).
+      rewrite C, Ea. assert (Ev : b_view st bo = arr) by (rewrite <- Ea; apply (bown_view st r bo (conj L Hw) En)).
+      destruct k; try (cbn [fst snd]; rewrite Eb; split; [reflexivity | split; assumption]).
+      destruct (resolve_index z (Z.of_nat (length arr))); cbn [fst snd]; rewrite Eb, ?Ev;
+        (split; [reflexivity | split; assumption]).
+    + destruct (nth_error (b_heap st) r) as [arr|] eqn:Eh.
+      * exfalso. destruct W as [L _]. apply nth_error_None in En. assert (r < length (b_heap st))%nat by (apply nth_error_Some; congruence). lia.
+      * cbn [fst snd]. rewrite Eb. auto.
+  - rewrite Eb. destruct (nth_error (b_objs st) r) as [bo|] eqn:En.
+    + destruct W as [L Hw]. destruct (Hw r bo En) as (A & B & C).
+      assert (Hr : (r < length (b_heap st))%nat) by (rewrite L; apply nth_error_Some; congruence).
+      destruct (nth_error (b_heap st) r) as [arr|] eqn:Eh; [|apply nth_error_None in Eh; lia].
+      assert (Ea : nth r (b_heap st) [] = arr) by (apply nth_error_nth; exact Eh).
+      rewrite C, Ea. rewrite A, B. simpl Nat.add. rewrite Ea.
+      destruct k; try (cbn [fst snd]; rewrite Eb; split; [reflexivity | split; assumption]).
+      destruct (resolve_index z (Z.of_nat (length arr))) as [i|] eqn:Ri;
+        [|cbn [fst snd]; rewrite Eb; split; [reflexivity | split; assumption]].
+      destruct (as_string v) as [[|x [|y t]]|];
+        try (cbn [fst snd]; rewrite Eb; split; [reflexivity | split; assumption]).
+      cbn [fst snd].
+      assert (Hi : (Z.to_nat i < length arr)%nat) by (apply resolve_index_some in Ri; lia).
+      assert (W' : bown (BS (set_nth_obj (b_heap st) r (zwrite arr (Z.to_nat i) x)) (b_objs st))).
+      { split; cbn [b_heap b_objs].
+        - rewrite set_nth_obj_length. exact L.
+        - intros r' o' En'. destruct (Hw r' o' En') as (A' & B' & C'). repeat split; auto.
+          destruct (Nat.eq_dec r r') as [->|Ne].
+          + rewrite nth_set_nth_obj by (rewrite L; apply nth_error_Some; congruence).
+            rewrite zwrite_length by assumption. rewrite C'. rewrite Ea. reflexivity.
+          + rewrite nth_set_nth_obj_other by assumption. exact C'. }
+      rewrite (babs_bown _ W'). cbn [b_heap]. split; [reflexivity | exact W'].
+    + destruct (nth_error (b_heap st) r) as [arr|] eqn:Eh.
+      * exfalso. destruct W as [L _]. apply nth_error_None in En. assert (r < length (b_heap st))%nat by (apply nth_error_Some; congruence). lia.
+      * cbn [fst snd]. rewrite Eb. auto.
+  - rewrite Eb. destruct (nth_error (b_objs st) r) as [bo|] eqn:En.
+    + destruct W as [L Hw].
+      assert (Hr : (r < length (b_heap st))%nat) by (rewrite L; apply nth_error_Some; congruence).
+      destruct (nth_error (b_heap st) r) as [arr|] eqn:Eh; [|apply nth_error_None in Eh; lia].
+      assert (Ea : nth r (b_heap st) [] = arr) by (apply nth_error_nth; exact Eh).
+      assert (Ev : b_view st bo = arr) by (rewrite <- Ea; apply (bown_view st r bo (conj L Hw) En)).
+      rewrite Ev. pose proof (bown_alloc st arr (conj L Hw)) as W'. rewrite (babs_bown _ W').
+      split; [|exact W']. unfold b_alloc. cbn [fst snd b_heap b_objs]. rewrite L. reflexivity.
+    + destruct (nth_error (b_heap st) r) as [arr|] eqn:Eh.
+      * exfalso. destruct W as [L _]. apply nth_error_None in En. assert (r < length (b_heap st))%nat by (apply nth_error_Some; congruence). lia.
+      * cbn [fst snd]. rewrite Eb. auto.
+  - rewrite Eb. destruct (nth_error (b_objs st) r) as [bo|] eqn:En.
+    + destruct W as [L Hw]. destruct (Hw r bo En) as (A & B & C).
+      assert (Hr : (r < length (b_heap st))%nat) by (rewrite L; apply nth_error_Some; congruence).
+      destruct (nth_error (b_heap st) r) as [arr|] eqn:Eh; [|apply nth_error_None in Eh; lia].
+      assert (Ea : nth r (b_heap st) [] = arr) by (apply nth_error_nth; exact Eh).
+      rewrite C, Ea. cbn [fst snd]. rewrite Eb. split; [reflexivity | split; assumption].
+    + destruct (nth_error (b_heap st) r) as [arr|] eqn:Eh.
+      * exfalso. destruct W as [L _]. apply nth_error_None in En. assert (r < length (b_heap st))%nat by (apply nth_error_Some; congruence). lia.
+      * cbn [fst snd]. rewrite Eb. auto.
+  - rewrite Eb.
+    assert (Hsame : forall q, match nth_error (b_objs st) q, nth_error (b_heap st) q with
+                              | Some bo, Some arr => b_view st bo = arr
+                              | None, None => True
+                              | _, _ => False end).
+    { intro q. destruct (nth_error (b_objs st) q) as [bo|] eqn:En; destruct (nth_error (b_heap st) q) as [arr|] eqn:Eh; auto.
+      - rewrite (bown_view st q bo W En). apply nth_error_nth. exact Eh.
+      - destruct W as [L _]. apply nth_error_None in Eh. assert (q < length (b_objs st))%nat by (apply nth_error_Some; congruence). lia.
+      - destruct W as [L _]. apply nth_error_None in En. assert (q < length (b_heap st))%nat by (apply nth_error_Some; congruence). lia. }
+    pose proof (Hsame r) as H1. pose proof (Hsame r2) as H2.
+    destruct (nth_error (b_objs st) r) as [bo|]; destruct (nth_error (b_heap st) r) as [arr|]; try contradiction;
+      destruct (nth_error (b_objs st) r2) as [bo2|]; destruct (nth_error (b_heap st) r2) as [arr2|]; try contradiction;
+      try (cbn [fst snd]; rewrite Eb; auto; fail).
+    rewrite H1, H2. pose proof (bown_alloc st (arr ++ arr2) W) as W'. rewrite (babs_bown _ W').
+    split; [|exact W']. unfold b_alloc. cbn [fst snd b_heap b_objs]. destruct W as [L _]. rewrite L. reflexivity.
+Qed.
+
+Theorem brun_own_refines : forall ops st, bown st -> forallb (fun o => negb (is_bslice o)) ops = true ->
+  rbrun (babs st) ops = (babs (fst (brun st ops)), snd (brun st ops)) /\ bown (fst (brun st ops)).
+Proof.
+  induction ops as [|o ops IH]; intros st W H; simpl; [auto|].
+  simpl in H. apply andb_true_iff in H. destruct H as [H1 H2]. apply negb_true_iff in H1.
+  destruct (bstep_own_sim st o W H1) as [E W1]. rewrite E.
+  destruct (bstep st o) as [s1 out]. cbn [fst snd] in *.
+  destruct (IH s1 W1 H2) as [E2 W2]. rewrite E2.
+  destruct (brun s1 ops) as [s2 outs]. cbn [fst snd] in *. auto.
+Qed.
